@@ -118,6 +118,12 @@ def chk_codes(case, note):
         p = compare(case["fn"], (s,), fa, fb, note, sa, sb)
         if p:
             return "[%s] %s" % (case["pair"], p)
+    if case["fn"] != "gray2alt":  # malformed arguments: both modules must refuse the same ones
+        s = format(case["start"] + 5, "0%db" % case["n"])
+        for bad in (s + "\n", s + " ", " " + s, "\n" + s, s + "\r\n", s[:-1], s + "0", s[:-1] + "2", s[:-1] + "x", "", s.replace("0", "O", 1)):
+            p = compare(case["fn"], (bad,), fa, fb, note, sa, sb)
+            if p:
+                return "[%s] malformed argument: %s" % (case["pair"], p)
     note.evals = 256
     note.cls(case["pair"] + "-" + case["fn"])
     note.nt(True)
@@ -180,7 +186,7 @@ def s_misc(draw):
         v = draw(st.one_of(gen.ubits(24), st.sampled_from(edges).flatmap(lambda e: st.sampled_from([max(0, e - 1), e, min(0xFFFFFF, e + 1)]))))
         c["s"] = frames.tohex(v, 24, draw(gen.hexcase))
     elif kind == "wrongstatus":
-        c["s"] = format(draw(gen.bits(56)), "056b")
+        c["s"] = format(draw(st.one_of(gen.bits(56), gen.uint(0, 55).map(lambda k: 1 << k), gen.uint(33, 55).map(lambda k: (1 << k) | (1 << (k - 33))))), "056b")
         a = draw(st.integers(2, 50))
         c["sb"], c["msb"], c["lsb"] = draw(st.integers(1, a)), a, draw(st.integers(a, 56))
     else:
